@@ -30,10 +30,12 @@ AMPLE = 1_000_000
 def gen_cases(seed, tier):
     rng = np.random.default_rng([seed, 5])
     n = 150 if tier == "quick" else 1500
-    devs = [1] if tier == "quick" else [1, 1, 1, 2, 3]
+    devs = [1, 1, 2, 3] if tier == "quick" else [1, 1, 2, 3, 4]
     cases = []
     for i in range(n):
         spec = gen.random_spec(rng, smin=2, smax=30)
+        if rng.random() < 0.3:
+            spec["S"] = int(rng.choice([65, 70, 97, 128, 130]))   # real states on every device of a multi-device layout
         if rng.random() < 0.5:
             spec["adim"] = 2
         if spec["init"] == "far":
